@@ -198,7 +198,7 @@ Qed.
 
 (* ------------------------------------------------------------------ experiment.wait() *)
 Lemma wst_check : forall W fx s j i, wst (check W fx s j i) = wst s /\ unfinished (check W fx s j i) = unfinished s
-  /\ failed (check W fx s j i) = failed s.
+  /\ fdict (check W fx s j i) = fdict s.
 Proof.
   intros. unfold check. destruct (nth_error (deps W j) i); auto.
   destruct (check_l (fx3 fx) (fx6 fx) (jobs s j) i (dep_status s d)) as [r w]. destruct w; auto.
@@ -207,12 +207,12 @@ Lemma wst_commit : forall s j p, wst (commit s j p) = wst s /\ unfinished (commi
 Proof. intros. unfold commit. destruct (snd p); auto. Qed.
 
 Definition waitres (s : state) : waitst :=
-  if unfinished s =? 0 then (match failed s with [] => WReturned | _ => WRaised end) else WBlocked.
+  if unfinished s =? 0 then (match fdict s with [] => WReturned | _ => WRaised end) else WBlocked.
 
 (* how one transition may change the status of wait() *)
 Lemma wst_step : forall W s l s', step W s l = Some s' ->
   wst s' = wst s \/ (wst s = WBlocked /\ wst s' = WWoken) \/ wst s' = WStarting
-  \/ ((wst s = WStarting \/ wst s = WWoken) /\ wst s' = waitres s /\ jobs s' = jobs s /\ failed s' = failed s).
+  \/ ((wst s = WStarting \/ wst s = WWoken) /\ wst s' = waitres s /\ jobs s' = jobs s /\ fdict s' = fdict s).
 Proof.
   intros W s l s' H. unfold step in H. destruct l as [j|n|j|]; simpl in H.
   - destruct ((j <? njobs W)%nat && match pc (jobs s j) with PNot => true | _ => false end
@@ -221,7 +221,7 @@ Proof.
     destruct (reg s (j_ident (spec W j))); [destruct (st (jobs s n))|]; reflexivity.
   - destruct (nth_error (queue s) n) as [c|]; [|discriminate]. inversion H; subst s'. clear H.
     set (s0 := s_queue s (remove_nth n (queue s))).
-    assert (E0 : wst s0 = wst s /\ unfinished s0 = unfinished s /\ failed s0 = failed s /\ jobs s0 = jobs s) by (repeat split; reflexivity).
+    assert (E0 : wst s0 = wst s /\ unfinished s0 = unfinished s /\ fdict s0 = fdict s /\ jobs s0 = jobs s) by (repeat split; reflexivity).
     destruct E0 as (E1 & E2 & E3 & E4). rewrite <- E1. unfold waitres. rewrite <- E2, <- E3, <- E4.
     generalize s0. clear. intros s. destruct c as [j|j|j i|j i| |]; simpl.
     + destruct (pc (jobs s j)); auto. left. unfold run_spawn. apply wst_commit.
@@ -264,8 +264,8 @@ Qed.
 Definition wait_completes (s s' : state) : Prop := wait_done (wst s) = false /\ wait_done (wst s') = true.
 
 Lemma wait_completes_inv : forall W s l s', step W s l = Some s' -> wait_completes s s' ->
-  unfinished s = 0 /\ jobs s' = jobs s /\ failed s' = failed s /\
-  wst s' = match failed s with [] => WReturned | _ => WRaised end.
+  unfinished s = 0 /\ jobs s' = jobs s /\ fdict s' = fdict s /\
+  wst s' = match fdict s with [] => WReturned | _ => WRaised end.
 Proof.
   intros W s l s' S (N & D).
   destruct (wst_step W s l s' S) as [X|[(X&Y)|[X|(X & Y & Z & F)]]].
@@ -285,27 +285,133 @@ Proof.
   split; auto. split; auto. intros j. rewrite Z. apply A.
 Qed.
 
+(* ------------------------------------------------------------------ failedJobs (ccf82b1: dropped on re-submission) *)
+(* what one transition does to failedJobs *)
+Definition grows (s s' : state) : Prop :=
+  exists d, failed s' = failed s ++ d /\ fdict s' = fdict s ++ d /\ reg s' = reg s.
+Lemma grows_refl : forall s s', failed s' = failed s -> fdict s' = fdict s -> reg s' = reg s -> grows s s'.
+Proof. intros s s' A B C. exists []. rewrite !app_nil_r. auto. Qed.
+Lemma grows_trans : forall a b c, grows a b -> grows b c -> grows a c.
+Proof.
+  intros a b c (d1 & A1 & B1 & C1) (d2 & A2 & B2 & C2). exists (d1 ++ d2).
+  rewrite A2, B2, C2, A1, B1, C1, !app_assoc. auto.
+Qed.
+Lemma grows_commit : forall s j p, grows s (commit s j p).
+Proof.
+  intros s j p. unfold commit. destruct (snd p); simpl.
+  - exists [j]. auto.
+  - apply grows_refl; reflexivity.
+Qed.
+Lemma grows_check : forall W fx s j i, grows s (check W fx s j i).
+Proof.
+  intros. apply grows_refl; unfold check; destruct (nth_error (deps W j) i); auto;
+    destruct (check_l (fx3 fx) (fx6 fx) (jobs s j) i (dep_status s d)) as [r w]; destruct w; reflexivity.
+Qed.
+Lemma grows_release : forall W s j, grows s (release_all W s j).
+Proof. intros. apply grows_refl; reflexivity. Qed.
+
+Lemma grows_run_cb : forall W fx s c, grows s (run_cb W fx s c).
+Proof.
+  intros W fx s c. destruct c as [j|j|j i|j i| |]; simpl.
+  - destruct (pc (jobs s j)); try (apply grows_refl; reflexivity). unfold run_spawn. apply grows_commit.
+  - unfold run_step. destruct (pc (jobs s j)); try (apply grows_refl; reflexivity).
+    + apply grows_commit.
+    + destruct a.
+      * unfold start_body. destruct (acquire_l (avail s) (held (jobs s j)) (deps W j) 0) as [[av hd] [i|]].
+        -- eapply grows_trans; [|apply grows_check]. apply grows_refl; reflexivity.
+        -- apply grows_refl; reflexivity.
+      * unfold abort_return. eapply grows_trans; [apply grows_release|apply grows_commit].
+      * apply grows_refl; reflexivity.
+      * unfold proc_return. eapply grows_trans; [apply grows_release|apply grows_commit].
+      * unfold done_return. apply grows_refl; simpl; unfold notify_exit; destruct (wst _); reflexivity.
+      * unfold adopt_return. destruct (adopted W j); [apply grows_commit|apply grows_refl; reflexivity].
+  - apply grows_check.
+  - destruct (nth_error (deps W j) i) as [[k|t c]|]; try (apply grows_refl; reflexivity).
+    destruct (0 <? avail s t)%nat; [apply grows_check|apply grows_refl; reflexivity].
+  - destruct (wst s); try (apply grows_refl; reflexivity); unfold wait_check; destruct (unfinished s =? 0); apply grows_refl; reflexivity.
+  - destruct (wst s); try (apply grows_refl; reflexivity); unfold wait_check; destruct (unfinished s =? 0); apply grows_refl; reflexivity.
+Qed.
+
+(* failedJobs holds failed jobs only, and holds every failed job that is the registered submission of its identifier *)
+Definition fdict_ok (W : workload) (s : state) : Prop :=
+  (forall x, In x (fdict s) -> In x (failed s)) /\
+  (forall x, In x (failed s) -> reg s (j_ident (spec W x)) = Some x -> In x (fdict s)).
+
+Lemma fdict_ok_grows : forall W s s', fdict_ok W s -> grows s s' -> fdict_ok W s'.
+Proof.
+  intros W s s' (A & B) (d & F & D & R). split.
+  - intros x X. rewrite D in X. rewrite F. apply in_or_app. apply in_app_or in X. destruct X; auto.
+  - intros x X RX. rewrite F in X. rewrite D. apply in_or_app. apply in_app_or in X. destruct X as [X|X]; auto.
+    left. apply B; auto. rewrite <- R. exact RX.
+Qed.
+
+Lemma fdict_ok_step : forall W s l s', wf W = true -> Inv W s -> fdict_ok W s -> step W s l = Some s' -> fdict_ok W s'.
+Proof.
+  intros W s l s' WF I OK H. unfold step in H. destruct l as [j|n|j|]; simpl in H.
+  - destruct ((j <? njobs W)%nat && match pc (jobs s j) with PNot => true | _ => false end
+              && forallb (dep_submitted s) (deps W j) && fits W j) eqn:G; [|discriminate].
+    inversion H; subst s'. clear H.
+    assert (PN : pc (jobs s j) = PNot).
+    { apply andb_true_iff in G. destruct G as (G & _). apply andb_true_iff in G. destruct G as (G & _).
+      apply andb_true_iff in G. destruct G as (_ & G). destruct (pc (jobs s j)); try discriminate. reflexivity. }
+    assert (NF : ~ In j (failed s)).
+    { intros X. apply (I_failed I) in X. destruct X as (X & _). rewrite PN in X. discriminate. }
+    destruct OK as (A & B). unfold submit.
+    destruct (reg s (j_ident (spec W j))) as [k|] eqn:RG; [destruct (st (jobs s k)) eqn:SK|]; simpl;
+      try (split; [exact A|exact B]).
+    + (* re-submission *)
+      split.
+      * intros x X. apply filter_In in X. apply A. exact (proj1 X).
+      * intros x X RX. simpl in X, RX. unfold upd in RX. destruct (Nat.eqb (j_ident (spec W x)) (j_ident (spec W j))) eqn:E.
+        -- inversion RX; subst. exfalso. apply NF. exact X.
+        -- apply filter_In. split; [apply B; auto|]. rewrite E. reflexivity.
+    + (* first submission *)
+      split; [exact A|]. intros x X RX. simpl in X, RX. unfold upd in RX.
+      destruct (Nat.eqb (j_ident (spec W x)) (j_ident (spec W j))) eqn:E; [inversion RX; subst; exfalso; apply NF; exact X|auto].
+  - destruct (nth_error (queue s) n) as [c|]; [|discriminate]. inversion H; subst s'.
+    eapply fdict_ok_grows; [|apply grows_run_cb]. exact OK.
+  - destruct (pc (jobs s j)); try discriminate. inversion H; subst s'. exact OK.
+  - destruct (wst s); try discriminate; inversion H; subst s'; exact OK.
+Qed.
+
+Lemma fdict_ok_reachable : forall W s, wf W = true -> reachable W s -> fdict_ok W s.
+Proof.
+  intros W s WF (ls & H). unfold steps in H.
+  assert (G : forall ls s0, Inv W s0 -> fdict_ok W s0 -> steps_gen W all_fixed s0 ls = Some s -> fdict_ok W s).
+  { clear H ls. induction ls as [|l r IH]; simpl; intros s0 I OK H; [inversion H; subst; auto|].
+    destruct (step_gen W all_fixed s0 l) as [s1|] eqn:S; [|discriminate].
+    apply (IH s1); auto.
+    - eapply inv_step; eauto.
+    - eapply fdict_ok_step; eauto. }
+  apply (G ls (init W)); auto; [apply inv_init|]. split; intros x []. 
+Qed.
+
+(* at the step where experiment.wait() completes: it raises exactly when failedJobs is not empty; then some job
+   returned ERROR; and a job that returned ERROR and is the registered submission of its identifier (it was not
+   submitted again since) makes it raise *)
 Theorem exit_reports : forall W s l s', wf W = true -> reachable W s -> step W s l = Some s' ->
   wait_completes s s' ->
-  (wst s' = WRaised <-> failed s' <> []) /\
-  (failed s' <> [] <-> exists j, pc (jobs s' j) = PReturned ERROR).
+  (wst s' = WRaised <-> fdict s' <> []) /\
+  (fdict s' <> [] -> exists j, pc (jobs s' j) = PReturned ERROR) /\
+  (forall j, pc (jobs s' j) = PReturned ERROR -> reg s' (j_ident (spec W j)) = Some j -> fdict s' <> []).
 Proof.
   intros W s l s' WF R S C.
-  pose proof (reachable_inv W s' WF (reachable_step W s l s' R S)) as I'.
+  pose proof (reachable_step W s l s' R S) as R'.
+  pose proof (reachable_inv W s' WF R') as I'.
+  destruct (fdict_ok_reachable W s' WF R') as (A & B).
   destruct (wait_sound W s l s' WF R S C) as (_ & A' & _).
   destruct (wait_completes_inv W s l s' S C) as (_ & _ & F & Y).
-  split.
-  - rewrite Y, F. destruct (failed s); split; intros X; try discriminate; auto. congruence.
-  - split.
-    + intros N. destruct (failed s') as [|x t] eqn:E; [congruence|].
-      assert (X : In x (failed s')) by (rewrite E; left; auto).
-      apply (I_failed I') in X. destruct X as (P & ND). exists x.
-      specialize (A' x). destruct (pc (jobs s' x)) eqn:PC; simpl in *; try discriminate.
-      pose proof (l_RT (I_loc I' x) PC) as RT. pose proof (l_A (I_loc I' x)) as FA. rewrite PC in FA. specialize (FA eq_refl).
-      rewrite RT in *. destruct r; simpl in FA; try discriminate; congruence.
-    + intros (j & P) E. assert (X : In j (failed s')).
-      { apply (I_failed I'). rewrite P. split; auto. rewrite (l_RT (I_loc I' j) P). discriminate. }
-      rewrite E in X. contradiction.
+  split; [|split].
+  - rewrite Y, F. destruct (fdict s); split; intros X; try discriminate; auto. congruence.
+  - intros N. destruct (fdict s') as [|x t] eqn:E; [congruence|].
+    assert (X : In x (failed s')) by (apply A; try rewrite E; left; auto).
+    apply (I_failed I') in X. destruct X as (P & ND). exists x.
+    specialize (A' x). destruct (pc (jobs s' x)) eqn:PC; simpl in *; try discriminate.
+    pose proof (l_RT (I_loc I' x) PC) as RT. pose proof (l_A (I_loc I' x)) as FA. rewrite PC in FA. specialize (FA eq_refl).
+    rewrite RT in *. destruct r; simpl in FA; try discriminate; congruence.
+  - intros j P RG E. assert (X : In j (failed s')).
+    { apply (I_failed I'). rewrite P. split; auto. rewrite (l_RT (I_loc I' j) P). discriminate. }
+    pose proof (B j X RG) as Y2. rewrite E in Y2. contradiction.
 Qed.
 
 (* ------------------------------------------------------------------ the three defects of the unchanged tree *)
@@ -401,7 +507,7 @@ Qed.
    earlier scheduler left for job 1 is still running, the failure of its input 0 shows job 1 ERROR; job 2,
    submitted in that window, is cancelled for good; then the old process ends well: job 1 returns DONE,
    job 2 has returned ERROR / DEPENDENCY although the only job it depends on is DONE *)
-Definition fixed_but6 := {| fx2 := true; fx3 := true; fx4 := true; fx5 := true; fx6 := false |}.
+Definition fixed_but6 := {| fx2 := true; fx3 := true; fx4 := true; fx5 := true; fx6 := false; fx7 := true |}.
 Definition W_adoptfail : workload :=
   {| w_jobs := [ {| j_deps := []; j_code := 1; j_marker := false; j_ident := 0; j_adopt := None |};
                  {| j_deps := [DJob 0]; j_code := 0; j_marker := false; j_ident := 1; j_adopt := Some (Some 0, true) |};
